@@ -61,7 +61,8 @@ class Gen:
         r = self.rng
         k = r.random()
         if k < 0.4:
-            return r.choice([b'hello world', b'', b'value1', b'a=b||c', b'{"x":1}', b'line1\nline2', b'tab\there', b'quote"back\\slash'])
+            return r.choice([b'hello world', b'', b'value1', b'a=b||c', b'{"x":1}', b'line1\nline2', b'tab\there', b'quote"back\\slash',
+                             b'a||', b'||', b'|', b'x|', b'||b', b'k=v', b'='])     # values that end in / consist of the pair separator and the key-value sign
         if k < 0.6:
             return ''.join(r.choice('abc xyz é ü € 😀 �   <>&') for _ in range(r.randint(0, 12))).encode()
         if k < 0.8:
@@ -133,6 +134,8 @@ class Gen:
                 if d == 6:
                     return 'rjs ' + hx(self.string())
                 return 'rjn ' + hx(r.choice(['0', '-7', '12.50', '1e3', '1E-2', '123456789012345678901234567890', 'abc', '']))
+            if c < 0.985:    # pre-encoded JSON handed over as json.RawMessage: compact, pretty-printed (line breaks, blanks), malformed, empty
+                return 'rrm ' + hx(r.choice(['{"a":1}', '{\n  "a": 1,\n  "b": [1, 2]\n}', '[1,\n2]', ' {"a" : "x y"} ', '{"a":', 'nope', '', '"s\\n"', '1e5', '{"a":1}\n']))
             return 're ' + hx(self.string())
         if k < 0.75:
             n = r.randint(0, 3)
